@@ -347,11 +347,11 @@ pub fn corr(ctx: &mut Ctx) {
                 2 => {
                     // 0..3 items: an EMPTY slice after items were streamed must just finish the sketch
                     let k = ctx.rng.below(4) as usize;
-                    if k == 0 && !streamed { continue; } // the truly empty stream runs in a child process below
+                    // (an empty slice on a sketcher that has received nothing reports failure - fix F2 - and the object goes on being used)
                     let sl: Vec<u64> = (0..k).map(|_| *ctx.rng.pick(&items)).collect();
                     let ok = d.sketch_slice(&sl);
-                    if k == 0 { ctx.count("op=sketch_slice(empty) after items"); }
-                    streamed = true;
+                    if k == 0 { ctx.count(if streamed { "op=sketch_slice(empty) after items" } else { "op=sketch_slice(empty) on an empty sketcher, then more operations" }); }
+                    streamed = streamed || k > 0;
                     ctx.line(&format!("dens slice{} a {} {}", sfx, alg, sl.iter().map(|x| fnv_tok(x)).collect::<Vec<_>>().join(" ")), if ok { "ok" } else { "ERR" });
                     ctx.count("op=sketch_slice");
                 }
@@ -374,6 +374,11 @@ pub fn corr(ctx: &mut Ctx) {
                 if v64.as_ref().ok() != Some(&values) || v32.as_ref().ok() != Some(&want32) || fv.as_ref().ok() != Some(&fbits) {
                     ctx.oracle_failure(serde_json::json!({"kind":"impl_violates_property","what":"a view (float / u64 / u32) is not the image of the current sketch state after an operation sequence","alg":alg,"sfx":sfx,"m":m,
                         "u64_ok": v64.as_ref().ok() == Some(&values), "u32_ok": v32.as_ref().ok() == Some(&want32), "float_ok": fv.as_ref().ok() == Some(&fbits)}));
+                }
+                // every position of a readable view holds the hash of an item of the pool (never the initial placeholder)
+                let pool: std::collections::HashSet<u64> = items.iter().map(|x| hash_with::<FnvHasher, u64>(x)).collect();
+                if values.iter().any(|h| !pool.contains(h)) {
+                    ctx.oracle_failure(serde_json::json!({"kind":"impl_violates_property","what":"a readable densified sketch (no empty bin reported) holds a value that is not the hash of a streamed item (placeholder left in place)","alg":alg,"sfx":sfx,"m":m}));
                 }
                 if let Ok(v) = &v32 { ctx.line(&format!("dens u32view{} a", sfx), &join(v)); }   // model: murmur3_32 of the stored hashes (Model/Hashers.lean)
                 ctx.count("views read after an operation");
